@@ -397,14 +397,17 @@ class DiffusionModel(GenericModel):
             self.boundaryConditions.setupDefaults(self.elements)
             self.boundaryConditions.applyBoundaryConditionsToInitialProfile(self.elements, self.x, self.z)
 
-        xsum = np.sum(self.x, axis=0)
-        if any(xsum > 1):
-            print('Compositions add up to above 1 between z = [{:.3e}, {:.3e}]'.format(np.amin(self.z[xsum>1]), np.amax(self.z[xsum>1])))
-            raise Exception('Some compositions sum up to above 1')
-        self.x[self.x > self.constraints.minComposition] = self.x[self.x > self.constraints.minComposition] - len(self.allElements)*self.constraints.minComposition
-        self.x[self.x < self.constraints.minComposition] = self.constraints.minComposition
-        self.isSetup = True
-        self.record(self.t) #Record at t = 0
+            #The composition shift, clamp and initial record are part of the one-time setup
+            #  solve() calls setup() every time, so doing this outside the guard would lower every
+            #  composition by len(allElements)*minComposition (and record the current time twice) per call
+            xsum = np.sum(self.x, axis=0)
+            if any(xsum > 1):
+                print('Compositions add up to above 1 between z = [{:.3e}, {:.3e}]'.format(np.amin(self.z[xsum>1]), np.amax(self.z[xsum>1])))
+                raise Exception('Some compositions sum up to above 1')
+            self.x[self.x > self.constraints.minComposition] = self.x[self.x > self.constraints.minComposition] - len(self.allElements)*self.constraints.minComposition
+            self.x[self.x < self.constraints.minComposition] = self.constraints.minComposition
+            self.isSetup = True
+            self.record(self.t) #Record at t = 0
 
     def _getFluxes(self):
         '''
